@@ -34,5 +34,9 @@ def c10_objgen(tier, seed):
               oworld("o_disp_spin_00", 1, threading=2, fill="0x00", only_tags=["disp"], fraction=0.5),
               oworld("o_hqueue_multi_ab", 2, threading=1, fill="0xAB", only_tags=["queue-nofilter", "queue-wf"], std="c++14"),
               oworld("o_hdisp_single_a5", 3, threading=0, fill="0xA5", only_tags=["disp"], fraction=0.5),
-              oworld("o_queue_multi_clang20", 0, threading=1, fill="0xAB", only_tags=["queue-wf"], compiler="clang++", std="c++20", opt="-O2")]
+              oworld("o_queue_multi_clang20", 0, threading=1, fill="0xAB", only_tags=["queue-wf"], compiler="clang++", std="c++20", opt="-O2"),
+              # tracked mutexes / atomics / condition variable: every one of them constructed exactly once, destroyed exactly once, never used afterwards
+              oworld("o_queue_tracked_ff", 0, threading=3, fill="0xFF", only_tags=["queue", "queue-wf"], fraction=0.3),
+              oworld("o_hqueue_tracked_a5", 2, threading=3, fill="0xA5", only_tags=["queue-nofilter", "queue-wf"], fraction=0.3),
+              oworld("o_disp_tracked_ab", 1, threading=3, fill="0xAB", only_tags=["disp"], fraction=0.3)]
     return [q, qwf, qnf, d], worlds
